@@ -39,13 +39,14 @@ TRACK_B = ("HardDrums", ["5 = N 1 0", "100 = N 2 0", "100 = N 3 0", "200 = S 2 1
 TRACK_C = ("EasyKeyboard", ["7 = E ev", "9 = N 2 1", "193 = N 2 1", "385 = N 0 0"])
 TRACK_D = ("MediumGHLCoop", ["1 = S 2 3", "2 = N 4 0", "383 = N 3 2", "385 = E x"])
 
-UNKNOWN_NAMES = ("Foo", "ExpertSingle ", "expertsingle", "Song2", "Song]", "Events][old", "ExpertSingle][backup", "MediumKeyboard] x", "[SyncTrack", "XSong", "Expert Single", "ExpertSingle2", "ExpertSingl", "Events2", "SyncTrack ", "ExpertVocals")
+UNKNOWN_NAMES = ("Foo", "ExpertSingle ", "expertsingle", "Song2", "Song]", "Events][old", "ExpertSingle][backup", "MediumKeyboard] x", "[SyncTrack", "XSong", "Expert Single", "ExpertSingle2", "ExpertSingl", "Events2", "SyncTrack ", "ExpertVocals", "\ufeffSong", "Expert\ufeffSingle", "Events\ufeff", "Sync\u200bTrack", "Song\u00a0")
 # (body lines, indentation)
 UNKNOWN_BODIES = (
     (["Resolution = 1", "0 = B 1", "0 = N 0 0", '0 = E "section q"'], "  "),
     (["[Song]", "{", "0 = TS 9", "garbage"], ""),
     ([], "  "),
     (["a = b", "} ", "[EasyKeyboard]", "{ ", "0 = N 3 0", "}\t", " }", "c = d"], ""),
+    (["a = b", "}\ufeff", "\ufeff}", "[Song]\ufeff", "\u200b}", "{\ufeff", "0 = N 3 0", "c = d"], ""),
 )
 VIAS = ("file", "path", "path-bom")
 
@@ -254,6 +255,11 @@ def _unknown_case(ctx, secs, base_text, w0, k):
     text = render(secs)
     names = [s[0] for s in secs]
     got = check(ctx, text, "file", "unknown sections inserted: %r" % names, sample=lambda: dict(sections=names))
+    if not text.isascii():
+        # invisible characters in titles / body lines: the same result through every entry point (a reader that
+        # "cleans" the text it reads from a path sees other titles and braces than the one handed a file object)
+        for via in VIAS[1:]:
+            check(ctx, text, via, "unknown sections inserted: %r (entry point %s)" % (names, via), sample=lambda: dict(sections=names))
     if got[0] == "ok" and w0 is not None:
         w = warn_count(text)
         ctx.evaluations += 1
